@@ -243,6 +243,9 @@ func rulePU2() Rule {
 						}
 					case *ast.Ident:
 						if v, ok := info.Uses[x].(*types.Var); ok && v.Pkg() != nil && v.Parent() == v.Pkg().Scope() && strings.HasPrefix(v.Pkg().Path(), "github.com/hattya/go.sh") {
+							if c.constantGlobal(v) {
+								return true // a lookup table: initialised at its declaration, never written, never aliased
+							}
 							n++
 							rr.Bad(f, f.Name+"|global "+x.Name, x.Pos(), "reads the package-level variable "+x.Name+": printing is not a function of its arguments alone")
 						}
@@ -587,7 +590,7 @@ func balance(p *core.Program, f *core.Func, g *cfg.CFG, delta func(ast.Node) int
 		}
 		if len(b.Succs) == 0 {
 			// exit block (return or end): depth must be 0 — ignore panicking exits
-			if b.Live && st != 0 && st != 1<<off && msg == "" && !endsInPanic(b) && !returnsError(b) {
+			if b.Live && st != 0 && st != 1<<off && msg == "" && !endsInPanic(b) && !returnsError(f.Info(), b) {
 				pos := f.Pos()
 				if len(b.Nodes) > 0 {
 					pos = b.Nodes[len(b.Nodes)-1].Pos()
@@ -637,7 +640,7 @@ func endsInPanic(b *cfg.Block) bool {
 
 // returnsError reports whether the block ends in `return …, <call>` or
 // `return <call>` building an error (an abandoned printer is discarded).
-func returnsError(b *cfg.Block) bool {
+func returnsError(info *types.Info, b *cfg.Block) bool {
 	if len(b.Nodes) == 0 {
 		return false
 	}
@@ -649,8 +652,16 @@ func returnsError(b *cfg.Block) bool {
 	if !ok {
 		return false
 	}
-	if se, ok := call.Fun.(*ast.SelectorExpr); ok {
-		return se.Sel.Name == "Errorf" || se.Sel.Name == "New"
+	if se, ok := call.Fun.(*ast.SelectorExpr); ok && (se.Sel.Name == "Errorf" || se.Sel.Name == "New") {
+		return true
+	}
+	// a constructor of the package whose only result is an error
+	if info != nil {
+		if fo := core.StaticCallee(info, call); fo != nil {
+			if sig, ok := fo.Type().(*types.Signature); ok && sig.Results().Len() == 1 && isErrorType(sig.Results().At(0).Type()) && sig.Recv() == nil {
+				return true
+			}
+		}
 	}
 	return false
 }
@@ -844,4 +855,73 @@ func rulePU8b() Rule {
 			}
 			rr.Bad(pf, key, pf.Pos(), fmt.Sprintf("print would have to be entered with %d frame(s) already on the stack: %s; the function at the end of the chain indexes the top frame.  A here-document body that contains a command substitution printed on one line with a here-document of its own (possible when alias text froze all positions onto one line) makes Fprint panic with index out of range [-1]", req[pf], strings.Join(chain, "; ")))
 		}}
+}
+
+// constantGlobal reports whether a package-level variable is a constant in
+// all but name: no function of its package assigns it or an element of it,
+// increments it, takes its address, appends to it or hands it to delete/copy
+// as the destination.
+func (c *Ctx) constantGlobal(v *types.Var) bool {
+	key := "constantGlobal:" + v.Pkg().Path() + "." + v.Name()
+	if r, ok := c.cache[key]; ok {
+		return r.(bool)
+	}
+	ok := true
+	for _, f := range c.P.Funcs {
+		if f.Pkg.Types != v.Pkg() || !ok {
+			continue
+		}
+		info := f.Info()
+		rootIs := func(e ast.Expr) bool {
+			for {
+				switch x := ast.Unparen(e).(type) {
+				case *ast.IndexExpr:
+					e = x.X
+					continue
+				case *ast.SliceExpr:
+					e = x.X
+					continue
+				case *ast.StarExpr:
+					e = x.X
+					continue
+				case *ast.SelectorExpr:
+					if _, isField := info.Selections[x]; isField {
+						e = x.X
+						continue
+					}
+					return info.Uses[x.Sel] == types.Object(v)
+				case *ast.Ident:
+					return info.Uses[x] == types.Object(v)
+				}
+				return false
+			}
+		}
+		f.OwnNodes(func(n ast.Node) bool {
+			switch x := n.(type) {
+			case *ast.AssignStmt:
+				for _, l := range x.Lhs {
+					if rootIs(l) {
+						ok = false
+					}
+				}
+			case *ast.IncDecStmt:
+				if rootIs(x.X) {
+					ok = false
+				}
+			case *ast.UnaryExpr:
+				if x.Op == token.AND && rootIs(x.X) {
+					ok = false
+				}
+			case *ast.RangeStmt:
+				// `for _, e := range table` copies elements: fine; `for i := range table { table[i] = … }` is an assignment, caught above
+			case *ast.CallExpr:
+				if (isBuiltinCall(info, x, "delete") || isBuiltinCall(info, x, "copy") || isBuiltinCall(info, x, "clear")) && len(x.Args) >= 1 && rootIs(x.Args[0]) {
+					ok = false
+				}
+			}
+			return ok
+		})
+	}
+	c.cache[key] = ok
+	return ok
 }
